@@ -1,6 +1,7 @@
 // drv_cm.cpp — correspondence harness for count_min_sketch<int64_t> (C14).
 #include "common.hpp"
 #include <sstream>
+#include <cmath>
 #define private public
 #define protected public
 #include "count_min.hpp"
@@ -20,7 +21,11 @@ template<typename W> struct Regs {
   }
   void handle(const Line& t, Out& o);
 };
-static Regs<int64_t> R64; static Regs<int32_t> R32; static int cur_wt = 0;
+// weight conversion: integer weight types take the script's integer as is; for W = double the script's integer counts QUARTERS
+// (w/4: dyadic, so every sum is exact in binary64 and results are reported back in quarters)
+template<typename W> struct WC { static W in(I w) { return (W)w; } static I out(W x) { return (I)x; } };
+template<> struct WC<double> { static double in(I w) { return (double)w / 4.0; } static I out(double x) { return (I)llround(x * 4.0); } };
+static Regs<int64_t> R64; static Regs<int32_t> R32; static Regs<double> RD; static int cur_wt = 0;
 
 template<typename W> void Regs<W>::handle(const Line& t, Out& o) {
   switch ((int)t.at(0)) {
@@ -30,7 +35,7 @@ template<typename W> void Regs<W>::handle(const Line& t, Out& o) {
     regs[(long)t.at(1)] = std::move(p);
     o.R(1); break; }
   case 2: { // update r w kind args
-    cm_t& s = get(t.at(1)); W w = (W)t.at(2); int kind = (int)t.at(3);
+    cm_t& s = get(t.at(1)); W w = WC<W>::in(t.at(2)); int kind = (int)t.at(3);
     if (kind == 0) s.update((uint64_t)t.at(4), w);
     else if (kind == 1) s.update((int64_t)t.at(4), w);
     else s.update(vh::bytes_of(t, 4), w);
@@ -41,14 +46,14 @@ template<typename W> void Regs<W>::handle(const Line& t, Out& o) {
     if (kind == 0) { uint64_t x = (uint64_t)t.at(3); est = s.get_estimate(x); lb = s.get_lower_bound(x); ub = s.get_upper_bound(x); }
     else if (kind == 1) { int64_t x = (int64_t)t.at(3); est = s.get_estimate(x); lb = s.get_lower_bound(x); ub = s.get_upper_bound(x); }
     else { std::string x = vh::bytes_of(t, 3); est = s.get_estimate(x); lb = s.get_lower_bound(x); ub = s.get_upper_bound(x); }
-    o.R((I)est); o.R((I)lb); o.R((I)s.get_total_weight()); o.F((I)ub); break; }
+    o.R(WC<W>::out(est)); o.R(WC<W>::out(lb)); o.R(WC<W>::out(s.get_total_weight())); o.F(WC<W>::out(ub)); break; }
   case 4: { // merge r r2
     cm_t& a = get(t.at(1)); cm_t& b = get(t.at(2));
     a.merge(b); o.R(1); break; }
   case 5: { // dump
     cm_t& s = get(t.at(1));
-    o.R((I)s.get_total_weight());
-    for (auto it = s.begin(); it != s.end(); ++it) o.R((I)*it);
+    o.R(WC<W>::out(s.get_total_weight()));
+    for (auto it = s.begin(); it != s.end(); ++it) o.R(WC<W>::out(*it));
     break; }
   case 6: { // r2 := deserialize(serialize r) ; path 0 = bytes, 1 = stream ; R: 1 seed row-seeds
     cm_t& a = get(t.at(1)); const uint64_t seed = a.get_seed();
@@ -70,10 +75,10 @@ template<typename W> void Regs<W>::handle(const Line& t, Out& o) {
 }
 
 static void handler(const Line& t, Out& o) {
-  if ((int)t.at(0) == 1 && R64.regs.empty() && R32.regs.empty()) cur_wt = t.size() > 5 ? (int)t.at(5) : 0;
-  if (cur_wt == 1) R32.handle(t, o); else R64.handle(t, o);
+  if ((int)t.at(0) == 1 && R64.regs.empty() && R32.regs.empty() && RD.regs.empty()) cur_wt = t.size() > 5 ? (int)t.at(5) : 0;
+  if (cur_wt == 1) R32.handle(t, o); else if (cur_wt == 2) RD.handle(t, o); else R64.handle(t, o);
 }
 
 int main(int argc, char** argv) {
-  return vh::run_main(argc, argv, [] { R64.regs.clear(); R32.regs.clear(); cur_wt = 0; }, handler);
+  return vh::run_main(argc, argv, [] { R64.regs.clear(); R32.regs.clear(); RD.regs.clear(); cur_wt = 0; }, handler);
 }
